@@ -114,6 +114,7 @@ and p_ntest = function
   | "(" :: "star" :: p :: ")" :: r -> (TStar (opt_bytes p), r)
   | "(" :: "node" :: ")" :: r -> (TNode, r)
   | "(" :: "text" :: ")" :: r -> (TText, r)
+  | "(" :: "any" :: ")" :: r -> (TAny, r)
   | _ -> raise Bad
 (* predicates up to the closing parenthesis of the enclosing step / filter *)
 and p_preds = function
@@ -141,6 +142,10 @@ let show_res (fl : flags) (r : value res) : string =
 
 (* the switches in the order in which they are put back; names are the known-finding tags (prefix "xpath-") *)
 let switches : (string * (flags -> flags)) list = [
+  ("skip-alldesc-axis", (fun f -> { f with f_skip = false }));
+  ("alldesc-duplicate", (fun f -> { f with f_alldup = false }));
+  ("assert-step-on-non-nodeset", (fun f -> { f with f_nonset = false }));
+  ("assert-attribute-node", (fun f -> { f with f_attrnode = false }));
   ("crash-sort-restart", (fun f -> { f with f_crash = false }));
   ("assert-unsorted-child-step", (fun f -> { f with f_assert = false }));
   ("fastpath-nonstring-rhs", (fun f -> { f with f_fast = false }));
